@@ -103,14 +103,16 @@ Print Assumptions C12_writer_writes.
    membership in P, and a call of ANY generic (accessor generics included) finds the methods of exactly the
    classes of P that have one, most specific first, cache or no cache.  (Since repo_fixes/C12-3 a class can lose
    readiness while it has instances: it inherits a class that was redefined with a superclass not defined yet.
-   Then P = [] and typep / dispatch see the hierarchy hier_of [] = (t), until the missing class is defined.) *)
+   Then P = [] and typep / dispatch see the hierarchy hier_of [] = (t), until the missing class is defined.
+   Since repo_fixes/C10-3 the methods found make an effective method only when one of them is a primary: [callable] -
+   for the accessor generics any method, for the user generic the method on t, its other methods being :before daemons.) *)
 Theorem C12_typep_classof_dispatch_agree : forall w i, Inv w -> CacheInv w -> current w i = true ->
   exists n P,
     (forall f l, lin (table w) f n = Some l -> P = n :: l ++ [SO; TT]) /\
     ((forall f, lin (table w) f n = None) -> P = []) /\
     snd (step w (OClassOf i) [] []) = ONames P /\
     (forall m, snd (step w (OTypep i m) [] []) = OB (memb m (hier_of P))) /\
-    (forall k, snd (call_gf w k i) = match applicable (get_gf w k) (hier_of P) with [] => None | l => Some l end).
+    (forall k, snd (call_gf w k i) = let l := applicable (get_gf w k) (hier_of P) in if callable k l then Some l else None).
 Proof. exact typep_classof_dispatch_agree. Qed.
 Print Assumptions C12_typep_classof_dispatch_agree.
 
